@@ -262,6 +262,12 @@ def classesText (es : List ErrC) : String :=
 
 /-! ## does the configuration touch something the model does not describe? -/
 
+/-- an `endpoint` field given a text whose host the model does not describe (IPv6 literal, over-long label) -/
+def endpointOutside (f : FInfo) (s : Schema) (v : Val) : Bool :=
+  match s, v with
+  | .scalar .str _, .str t => (f.tags.any fun t => match t with | .endpoint => true | _ => false) && !endpointInModel t
+  | _, _ => false
+
 mutual
 /-- a non-null value decoded into a `special` (library text type) or pruned / opaque position -/
 partial def touchesUnmodelled : Schema → Val → Bool
@@ -289,7 +295,7 @@ partial def touchesFields : Fields → List (Str × Val) → Bool
   | .nil, _ => false
   | .cons f s rest, kvs =>
     (match (if f.settable then findKey kvs f.key else none) with
-     | some (_, v) => touchesUnmodelled s v
+     | some (_, v) => touchesUnmodelled s v || endpointOutside f s v
      | none => false) || touchesFields rest kvs
 partial def touchesAlts : Alts → Str → Val → Bool
   | .nil, _, _ => false
@@ -349,7 +355,7 @@ def parseObs (impl : String) : Obs :=
 def failKey (kind : String) (why : String) : String :=
   let base :=
     if kind == "unknown" || kind == "misspelled" then "unknown-key-accepted"
-    else if kind == "mistyped" then "mistyped-accepted"
+    else if kind == "mistyped" || (kind == "libtype" && why == "accepted") then "mistyped-accepted"
     else if kind == "cons" then (if why == "accepted" then "constraint-accepted" else "valid-config")
     else if kind == "oor" || kind == "doc" || (kind == "typeonly" && why == "accepted") then "constraint-accepted"
     else if kind == "ph-unset" || kind == "ph-noprop" || kind == "ph-nofile" then "placeholder-missing-accepted"
